@@ -20,8 +20,9 @@ func checks() map[string]CheckDef {
 			{Pkg: "internal/zzverif/c19", Func: "HarnessLog2", Labels: []string{"C19/log2-floor"}, Solver: "z3"},
 			{Pkg: "internal/zzverif/c19", Func: "HarnessCompact", Labels: []string{"C19/compact-to-big", "C19/compact-sign"}, Unwind: 600, Solver: "z3"},
 			{Pkg: "internal/zzverif/c19", Func: "HarnessWork", Labels: []string{"C19/work", "C19/work-nonneg"}, Unwind: 600, Solver: "z3"},
+			{Pkg: "internal/zzverif/c19", Func: "HarnessWorkRepeated", Labels: []string{"C19/work-independent-of-earlier-calls"}, Unwind: 600, Solver: "z3"},
 		},
-		Bounds:  []string{"none: bits and n range over all 2^32 values; the exponent byte is case-split into its 256 values, each case decided for all 2^24 mantissa/sign values"},
+		Bounds:  []string{"call histories: one earlier call on one of 3 fixed encodings (positive / negative / zero target), then an arbitrary encoding evaluated twice (HarnessWorkRepeated); longer histories are outside", "none: bits and n range over all 2^32 values; the exponent byte is case-split into its 256 values, each case decided for all 2^24 mantissa/sign values"},
 		Outside: []string{"monotonicity of work in the target is a consequence of the formula and is not re-proved", "math/big itself: Add/Mul/Neg/Lsh/Div/Quo/Cmp/Sign are modelled as exact integer arithmetic (Lsh by a constant = multiplication by 2^k, Div = Euclidean division)"},
 		Stubs:   []string{"math/big.Int = SMT Int; big.NewInt(int64) = signed value of the 64-bit vector", "work is checked relative to CompactToBig's result (HarnessWork), CompactToBig against the specification (HarnessCompact)"},
 	})
@@ -73,6 +74,8 @@ func checks() map[string]CheckDef {
 				Labels: []string{"C04/read-routes-registered", "C04/answer-after-ingestion-equals-a-fresh-process"}},
 			{Pkg: "transports/http/endpoints/api/headers", Func: "HarnessMapHeader", Quick: [][]int64{{2}}, Thorough: [][]int64{{3}}, Labels: []string{"C04/header-response-carries-the-stored-fields", "C04/state-response-carries-the-stored-fields", "C04/list-response-keeps-length-and-order"}},
 			{Pkg: "transports/http/endpoints/api/tips", Func: "HarnessMapTip", Quick: [][]int64{{2}}, Thorough: [][]int64{{3}}, Labels: []string{"C04/tip-response-carries-the-stored-fields", "C04/tips-response-keeps-length-and-order"}},
+			{Pkg: "transports/http/endpoints/api/headers", Func: "HarnessByHeightRoute", Quick: [][]int64{{2}}, Thorough: [][]int64{{3}},
+				Labels: []string{"C04/by-height-route-answers-with-the-window"}},
 		},
 		Bounds:  []string{"arbitrary INV-H store of k rows (quick k<=4, thorough k<=5), every column symbolic; query hash an arbitrary string (by-hash/state) or any ordered pair of distinct stored headers (ancestors); by-height: any height and count with |.| < 2^40; common-ancestor: every list of n stored-or-unknown hashes (quick k<=4 n<=2; thorough k=3 n=3, k=5 n<=3, and the two-branch shape of 5 rows with n=3), on stores without a parent stored after its child", "no state outside the store: for each of the 9 routes under /api/v1/chain (enumerated from the routing table; auth off) one arbitrary request, then one arbitrary new header ingested through the same process, then the same request again - its answer (status and documents) equals that of a freshly assembled application over the same database; k=1 for every route and k=2 for header by hash, header state, the merkle-root listing and tips (quick), k=2 for every route and k=3 for those two (thorough)"},
 		Outside: []string{"JSON encoding of the response structs (field names / tags); the struct-level mapping is checked for every header with a timestamp within uint32 seconds", "PostgreSQL", "tips: the row order of the UNION is unspecified, the result is compared as a set"},
@@ -85,6 +88,8 @@ func checks() map[string]CheckDef {
 				Labels: []string{"C08/ok-iff-key-empty-or-longest", "C08/page-length", "C08/ascending-consecutive", "C08/only-longest-chain-rows", "C08/last-key", "C08/unknown-key-404", "C08/non-longest-key-409"}},
 			{Pkg: "internal/zzverif/c08", Func: "HarnessPageAfterAdd", Quick: [][]int64{{2}}, Thorough: [][]int64{{3}, {4}},
 				Labels: []string{"C08/ok-iff-key-empty-or-longest", "C08/page-length", "C08/ascending-consecutive", "C08/last-key"}},
+			{Pkg: "transports/http/endpoints/api/merkleroots", Func: "HarnessListRoute", Quick: [][]int64{{2, 0}, {4, 1}}, Thorough: [][]int64{{3, 0}, {5, 1}},
+				Labels: []string{"C08/listing-route-answers-with-the-requested-page"}},
 		},
 		Bounds:  []string{"arbitrary INV-H store of k rows with pairwise distinct merkle roots (quick k<=4 for one page, k=2 for the page-after-ingestion composition; thorough k<=6 / k<=4); page size any int >= 0; key any string", "walk interleaved with ingestion: page request, one arbitrary Add (incl. reorganisations), page request with an arbitrary (possibly identical) key, from stores of k rows (quick k=2, thorough k<=4)"},
 		Outside: []string{"the walk over several pages follows from the page lemma by induction on pages (argument, not a solver result)", "parsing of batchSize in the handler (C16)", "PostgreSQL"},
@@ -147,7 +152,7 @@ func checks() map[string]CheckDef {
 			{Pkg: "internal/zzverif/c09", Func: "HarnessNearMissTokens",
 				Labels: []string{"C09/unauthenticated-gets-structured-401-before-any-handler-logic", "C09/authenticated-is-let-through", "C09/api-routes-registered"}},
 		},
-		Bounds:  []string{"every route that endpoints.SetupRoutes / metrics.Register / websocket.SetupEntrypoint register on the working tree (enumerated at run time) x {use_auth} x {debug_profiling}", "Authorization header = 0..3 space-separated space-free atoms, each an arbitrary string (this is every header value with at most two spaces, incl. empty parts)", "admin token an arbitrary non-empty space-free string; tokens table of k arbitrary rows (quick k=1, thorough k<=3)", "strings are atoms in the encoding, so byte-level near misses come from a menu: 16 concrete variants (proper prefixes incl. empty, extensions, case variants, suffixes, SQL wildcards, concatenation) of one concrete admin token and one concrete stored token, on every API route"},
+		Bounds:  []string{"every route that endpoints.SetupRoutes / metrics.Register / websocket.SetupEntrypoint register on the working tree (enumerated at run time) x {use_auth} x {debug_profiling}", "Authorization header = 0..3 space-separated space-free atoms, each an arbitrary string (this is every header value with at most two spaces, incl. empty parts)", "admin token an arbitrary non-empty space-free string; tokens table of k arbitrary rows (quick k=1, thorough k<=3)", "16 other request headers (Origin, Access-Control-Request-*, X-Forwarded-For, X-Api-Key, Cookie, Upgrade, ...) carry arbitrary values or are absent; header names outside that list are absent", "strings are atoms in the encoding, so byte-level near misses come from a menu: 16 concrete variants (proper prefixes incl. empty, extensions, case variants, suffixes, SQL wildcards, concatenation) of one concrete admin token and one concrete stored token, on every API route"},
 		Outside: []string{"gin's own route matching and net/http (routes are addressed by their pattern)", "metrics route (metrics are disabled in the harness)", "the websocket connect handshake (C10)", "header values with three or more spaces (all are refused by the same len(parts) != 2 test)"},
 		Stubs:   []string{"gin.Context modelled (Param/Query/GetHeader/Bind*/JSON/Abort*/Set/Get/Next); gin's RouterGroup code runs from source, Engine.addRoute is intercepted", "wrapped net/http handlers (swagger, pprof, websocket) are opaque handlers answering 200"},
 	})
@@ -298,6 +303,8 @@ func checks() map[string]CheckDef {
 				Labels: []string{"C17/import-succeeds", "C17/same-hash-at-same-height", "C17/same-fields", "C17/same-cumulative-work", "C17/stale-and-orphan-headers-left-out"}},
 			{Pkg: "database", Func: "HarnessFileRoundTrip", Quick: [][]int64{{2}, {3}}, Thorough: [][]int64{{4}},
 				Labels: []string{"C17/export-succeeds", "C17/import-succeeds", "C17/same-hash-at-same-height", "C17/same-fields", "C17/same-cumulative-work", "C17/stale-and-orphan-headers-left-out"}},
+			{Pkg: "database", Func: "HarnessCheckpointMismatch", Quick: [][]int64{{1}, {3}}, Thorough: [][]int64{{2}, {4}},
+				Labels: []string{"C17/export-succeeds", "C17/checkpoint-mismatch-fails-the-start"}},
 			{Pkg: "database", Func: "HarnessExportOverEarlierFile", Quick: [][]int64{{1, 1}, {2, 1}}, Thorough: [][]int64{{2, 2}, {3, 1}},
 				Labels: []string{"C17/export-succeeds", "C17/import-succeeds", "C17/same-hash-at-same-height", "C17/same-fields", "C17/same-cumulative-work", "C17/stale-and-orphan-headers-left-out"}},
 			{Pkg: "database", Func: "HarnessSecondStart", Quick: [][]int64{{1}, {2}}, Thorough: [][]int64{{3}},
